@@ -243,8 +243,232 @@ fn keep_cfg(ops: &[String]) -> usize {
     k
 }
 
+// ---------------------------------------------------------------------------------------------
+// E1: renet wire format
+// ---------------------------------------------------------------------------------------------
+const MAGS: &[u64] = &[0, 1, 62, 63, 64, 65, 255, 256, 16382, 16383, 16384, 16385, 65535, 65536, (1 << 30) - 1, 1 << 30, (1 << 30) + 1, u32::MAX as u64, (1u64 << 62) - 2, (1u64 << 62) - 1];
+
+fn gen_mag(rng: &mut Rng) -> u64 {
+    match rng.below(4) {
+        0 => rng.below(100),
+        1 | 2 => rng.pick(MAGS),
+        _ => rng.next_u64() >> rng.range(2, 63),
+    }
+}
+
+fn gen_ranges(rng: &mut Rng, n: usize) -> Vec<(u64, u64)> {
+    // ascending, non-adjacent, starting at a random magnitude
+    let mut start = if rng.chance(1, 2) { rng.below(1000) } else { gen_mag(rng) >> 1 };
+    let mut v = vec![];
+    for _ in 0..n {
+        let len = rng.pick(&[1u64, 1, 2, 3, 10, 100, 70000]);
+        let end = start.saturating_add(len);
+        if end > (1u64 << 62) {
+            break;
+        }
+        v.push((start, end));
+        let gap = rng.pick(&[1u64, 1, 2, 5, 63, 64, 16384, 1 << 31]);
+        start = end.saturating_add(gap);
+        if start >= (1u64 << 62) - 1 {
+            break;
+        }
+    }
+    v
+}
+
+fn gen_term(rng: &mut Rng) -> String {
+    let seq = gen_mag(rng);
+    let ch = rng.pick(&[0u64, 1, 2, 7, 200, 255]);
+    match rng.below(5) {
+        0 => {
+            let n = rng.pick(&[0usize, 1, 2, 3, 10, 40]);
+            let mut s = format!("SR {} {} {}", seq, ch, n);
+            let mut budget = 1300i64;
+            for _ in 0..n {
+                let l = (rng.pick(&[0usize, 1, 5, 63, 64, 100, 600, 1185, 1190, 1200]) as i64).min(budget.max(0)) as usize;
+                budget -= l as i64 + 10;
+                s.push_str(&format!(" {} {}", gen_mag(rng), hex(&rng.payload(l))));
+            }
+            s
+        }
+        1 => {
+            let n = rng.pick(&[0usize, 1, 2, 3, 10, 100, 600]);
+            let mut s = format!("SU {} {} {}", seq, ch, n);
+            let mut budget = 1300i64;
+            for _ in 0..n {
+                let l = (rng.pick(&[0usize, 0, 1, 5, 63, 64, 100, 600, 1199, 1200]) as i64).min(budget.max(0)) as usize;
+                budget -= l as i64 + 2;
+                s.push_str(&format!(" {}", hex(&rng.payload(l))));
+            }
+            s
+        }
+        2 | 3 => {
+            let kind = if rng.chance(1, 2) { "RS" } else { "US" };
+            let n = rng.pick(&[1u64, 2, 3, 100, 1_000_000, 1_000_001, 0]);
+            let idx = if rng.chance(3, 4) { rng.below(n.max(1)) } else { gen_mag(rng) };
+            let l = rng.pick(&[0usize, 1, 2, 600, 1199, 1200, 1201, 1300]);
+            format!("{} {} {} {} {} {} {}", kind, seq, ch, gen_mag(rng), idx, n, hex(&rng.payload(l)))
+        }
+        _ => {
+            let n = rng.pick(&[1usize, 1, 2, 3, 8, 32, 63, 64, 65, 90]);
+            let r = gen_ranges(rng, n);
+            let mut s = format!("AK {} {}", seq, r.len());
+            for (a, b) in r {
+                s.push_str(&format!(" {} {}", a, b));
+            }
+            s
+        }
+    }
+}
+
+fn script_wire(rng: &mut Rng, _tier: Tier, ex: &mut dyn FnMut(&str) -> String) {
+    for _ in 0..12 {
+        match rng.below(10) {
+            0..=5 => {
+                // structured value: encode, decode the encoding, re-encode the decoded term
+                let term = gen_term(rng);
+                let h = ex(&format!("enc {}", term));
+                if h == "panic" {
+                    return;
+                }
+                if !h.starts_with("err:") && h != "bad-op" {
+                    let t2 = ex(&format!("dec {}", h));
+                    if !t2.starts_with("err:") {
+                        ex(&format!("enc {}", t2));
+                    }
+                    // malformed stream derived from a valid encoding
+                    let b = unhex(&h).unwrap_or_default();
+                    if !b.is_empty() {
+                        match rng.below(4) {
+                            0 => {
+                                let cut = rng.below(b.len() as u64) as usize;
+                                ex(&format!("dec {}", hex(&b[..cut])));
+                            }
+                            1 => {
+                                let mut c = b.clone();
+                                let i = rng.below(c.len().min(24) as u64) as usize;
+                                c[i] ^= 1 << rng.below(8);
+                                let o = ex(&format!("dec {}", hex(&c)));
+                                if !o.starts_with("err:") {
+                                    let h2 = ex(&format!("enc {}", o));
+                                    if !h2.starts_with("err:") && h2 != "panic" {
+                                        ex(&format!("dec {}", h2));
+                                    }
+                                }
+                            }
+                            2 => {
+                                let mut c = b.clone();
+                                let k = rng.below(8) as usize;
+                                c.extend(rng.bytes(k));
+                                ex(&format!("dec {}", hex(&c)));
+                            }
+                            _ => {}
+                        }
+                    }
+                }
+            }
+            6 | 7 => {
+                // raw bytes with a plausible type byte
+                let n = rng.pick(&[0usize, 1, 2, 3, 5, 8, 12, 20, 40, 100, 1300, 1400]);
+                let mut b = rng.bytes(n);
+                if !b.is_empty() {
+                    b[0] = rng.pick(&[0u8, 1, 2, 3, 4, 5, 255]);
+                }
+                let o = ex(&format!("dec {}", hex(&b)));
+                if !o.starts_with("err:") {
+                    let h2 = ex(&format!("enc {}", o));
+                    if !h2.starts_with("err:") && h2 != "panic" {
+                        ex(&format!("dec {}", h2));
+                    }
+                }
+            }
+            _ => {
+                // non-canonical varints: a small value in a wide encoding
+                let v = rng.below(64);
+                let wide = match rng.below(3) {
+                    0 => vec![0x40, v as u8],
+                    1 => vec![0x80, 0, 0, v as u8],
+                    _ => vec![0xc0, 0, 0, 0, 0, 0, 0, v as u8],
+                };
+                let mut b = vec![4u8];
+                b.extend(&wide); // sequence
+                b.extend(&[5, 2, 0]); // end 5 size 2 remaining 0
+                let o = ex(&format!("dec {}", hex(&b)));
+                if !o.starts_with("err:") {
+                    let h2 = ex(&format!("enc {}", o));
+                    if !h2.starts_with("err:") && h2 != "panic" {
+                        ex(&format!("dec {}", h2));
+                    }
+                }
+            }
+        }
+    }
+}
+
+/// is the term a value the library itself can build (the domain C16 quantifies over)?
+fn term_wf(t: &str) -> bool {
+    let v: Vec<&str> = t.split(' ').collect();
+    let max = (1u64 << 62) - 1;
+    let num = |s: &str| s.parse::<u64>().ok();
+    match v[0] {
+        "RS" | "US" if v.len() == 7 => {
+            let n = num(v[5]).unwrap_or(0);
+            let len = if v[6] == "-" { 0 } else { v[6].len() / 2 };
+            n >= 1 && n <= 1_000_000 && (v[0] == "US" || (len >= 1 && len <= 1200)) && [v[1], v[3], v[4]].iter().all(|x| num(x).map(|x| x <= max).unwrap_or(false))
+        }
+        "AK" => {
+            let mut prev_end: Option<u64> = None;
+            let n = num(v[2]).unwrap_or(0) as usize;
+            if n == 0 {
+                return false;
+            }
+            for i in 0..n {
+                let (s, e) = (num(v[3 + 2 * i]).unwrap_or(0), num(v[4 + 2 * i]).unwrap_or(0));
+                if s >= e || e > max + 1 {
+                    return false;
+                }
+                if let Some(pe) = prev_end {
+                    if s <= pe {
+                        return false;
+                    }
+                }
+                prev_end = Some(e);
+            }
+            num(v[1]).map(|x| x <= max).unwrap_or(false)
+        }
+        _ => true,
+    }
+}
+
+/// C16 on the implementation: `dec` of what `enc T` produced gives T; a decoded term re-encodes and
+/// decodes to itself.
+fn oracle_c16(ops: &[String], outs: &[String]) -> Option<OracleFail> {
+    for i in 1..ops.len() {
+        if let (Some(t), Some(h)) = (ops[i - 1].strip_prefix("enc "), ops[i].strip_prefix("dec ")) {
+            if outs[i - 1] == h && outs[i] != t && term_wf(t) {
+                return fail(i, "encode-decode-differs", format!("decode(encode(T)) != T for T = {}", &t[..t.len().min(100)]));
+            }
+        }
+        if let (Some(_), Some(t)) = (ops[i - 1].strip_prefix("dec "), ops[i].strip_prefix("enc ")) {
+            if outs[i - 1] == t && (outs[i] == "panic") {
+                return fail(i, "reencode-panics", format!("re-encoding a decoded packet panics: {}", &t[..t.len().min(100)]));
+            }
+        }
+    }
+    None
+}
+
 pub fn profiles() -> Vec<Profile> {
     vec![Profile {
+        name: "rn-wire",
+        props: &["C16", "C13"],
+        cases: |t| if t == Tier::Quick { 600 } else { 20000 },
+        new_world,
+        script: script_wire,
+        nontrivial: |t| t.outs.iter().any(|o| o.starts_with("SR ") || o.starts_with("SU ") || o.starts_with("RS ") || o.starts_with("US ") || o.starts_with("AK ")),
+        keep: |_| 0,
+    },
+    Profile {
         name: "rn-pair",
         props: &["C01", "C02", "C03", "C08", "C09", "C13", "C14", "C15"],
         cases: |t| if t == Tier::Quick { 300 } else { 4000 },
@@ -452,5 +676,6 @@ pub fn oracles() -> Vec<Oracle> {
         Oracle { prop: "C01", name: "ordered-prefix", engines: &["rn-pair"], check: oracle_c01 },
         Oracle { prop: "C02", name: "unordered-once", engines: &["rn-pair"], check: oracle_c02 },
         Oracle { prop: "C03", name: "integrity", engines: &["rn-pair"], check: oracle_c03 },
+        Oracle { prop: "C16", name: "roundtrip", engines: &["rn-wire"], check: oracle_c16 },
     ]
 }
